@@ -272,6 +272,9 @@ def cases(shard, nshards, seed, tier):
     for i in range(n):
         if mine():
             yield {"family": "generated", "i": i}
+    for argv in ([], ["--category", "atom_site"], ["--copy-from", "label_asym_id"], ["--replace", "auth_asym_id"], ["--values", "ABC", "--copy-to", "x"]):
+        if mine():
+            yield {"family": "cli-incomplete-mode", "argv": argv}
     d = os.path.join(core.REPO, "tests")
     files = sorted(fn for fn in os.listdir(d) if fn.endswith(".cif") and os.path.getsize(os.path.join(d, fn)) > 0)
     if tier == "quick":
@@ -380,6 +383,21 @@ def run_case(case, rec):
                 _drive(rec, text, cn, "copy", "no_such_item", items[0])
             else:
                 _drive(rec, text, cn, "replace", "no_such_item", "ABC")
+        return
+    if case["family"] == "cli-incomplete-mode":
+        # neither a complete copy mode nor a complete replace mode: nothing may be written
+        d = tempfile.mkdtemp(prefix="vmon-c20-")
+        try:
+            pin, pout = os.path.join(d, "in.cif"), os.path.join(d, "out.cif")
+            text = ciftok.emit("gen", make_doc(random.Random("incomplete")))
+            open(pin, "w").write(text)
+            err = _run_main([pin, pout] + case["argv"])
+            rec.check("cli.incomplete-mode-writes-nothing", err is None and not os.path.exists(pout) and open(pin).read() == text,
+                      lambda: {"argv": case["argv"], "error": err, "output-exists": os.path.exists(pout)})
+        finally:
+            import shutil
+
+            shutil.rmtree(d, ignore_errors=True)
         return
     text = open(os.path.join(core.REPO, case["file"])).read()
     op = case["op"]
